@@ -131,13 +131,24 @@ Definition get_transition_type (types : list ttype) (abbrs : list Z) (off : Z) (
     OK (Some (types ++ [mkTT off epoch epoch isdst abbr_index], abbrs', type_index))
   else OK (Some (types, abbrs, type_index)).
 
-(* ---- EquivTransitions (:295-304) ---- *)
-Definition equiv_transitions (types : list ttype) (i1 i2 : Z) : res bool :=
+(* ---- EquivTransitions (:295-308) ---- *)
+(* As in /repo after the C11 fix: two types whose abbr_index differ are still
+   equivalent when both indices designate the same abbreviation TEXT
+   (strcmp(&abbreviations_[i1], &abbreviations_[i2]) == 0).  The pre-fix
+   comparison of the bare indices is History.equiv_transitions_prefix.
+   Evaluation order as in the C++: offset, is_dst, then the abbreviation. *)
+Definition equiv_transitions (abbrs : list Z) (types : list ttype) (i1 i2 : Z) : res bool :=
   if i1 =? i2 then OK true
   else
     do t1 <- nth_res types i1 ;;
     do t2 <- nth_res types i2 ;;
-    OK ((tt_off t1 =? tt_off t2) && Bool.eqb (tt_isdst t1) (tt_isdst t2) && (tt_abbr t1 =? tt_abbr t2)).
+    if negb (tt_off t1 =? tt_off t2) then OK false
+    else if negb (Bool.eqb (tt_isdst t1) (tt_isdst t2)) then OK false
+    else if tt_abbr t1 =? tt_abbr t2 then OK true
+    else
+      do a1 <- cstr_from abbrs (tt_abbr t1) ;;
+      do a2 <- cstr_from abbrs (tt_abbr t2) ;;
+      OK (list_eqb a1 a2).
 
 (* ---- AllYearDST (:179-190) ---- *)
 Definition get_opt {A} (o : option A) : res A := match o with Some a => OK a | None => Err Uninit end.
@@ -241,7 +252,7 @@ Definition extend_transitions (trans : list transition) (types : list ttype) (ab
         do last <- match last_opt trans with Some x => OK x | None => Err OOB end ;;
         match dst_abbr posix with
         | [] =>
-            do e <- equiv_transitions types1 (tr_type last) std_ti ;;
+            do e <- equiv_transitions abbrs1 types1 (tr_type last) std_ti ;;
             if e then OK (Some (trans, types1, abbrs1, false, 0)) else OK None
         | _ =>
           do dof <- get_opt (dst_offset posix) ;;
@@ -251,7 +262,7 @@ Definition extend_transitions (trans : list transition) (types : list ttype) (ab
           | Some (types2, abbrs2, dst_ti) =>
             do ay <- all_year_dst posix ;;
             if ay then
-              (do e <- equiv_transitions types2 (tr_type last) dst_ti ;;
+              (do e <- equiv_transitions abbrs2 types2 (tr_type last) dst_ti ;;
                if e then OK (Some (trans, types2, abbrs2, false, 0)) else OK None)
             else
               let last_time := tr_time last in
